@@ -283,3 +283,6 @@ def run(ctx):
     # growth next to C19: the mutable bounding box the raster is laid over (BoundingBox.tla)
     from drivers import bbox_common
     bbox_common.run(ctx, quick)
+    # growth next to C19: the cell operators the property does not name (CellOps.tla)
+    from drivers import cellops_common
+    cellops_common.run(ctx, quick)
